@@ -15,11 +15,13 @@ Lemma walk_sent_cplan p s b s' ev h m c : walk s p b = (s', ev) -> In (Sent h m 
   c = CPlan /\ m = MOrig (msg_cl s) /\ pool_of s h = PHealthy.
 Proof.
   intros W Hin. apply walk_walked in W.
-  destruct W as [sk h0 rest Hp Hsk Hh Hplan Hcons Hev Hatt Hexc Harm | Hsk Hplan Hcons Hev Hatt Hexc Harm];
+  destruct W as [sk h0 rest Hp Hsk Hh Hplan Hcons Hev Hatt Hexc Harm | Hsk Hplan Hcons Hev Hatt Hexc Harm
+                | sk rest Hp Hne Hsk Hplan Hcons Hev Hatt Hel Hexc Harm];
     rewrite Hev in Hin.
   - apply in_app_iff in Hin. destruct Hin as [Hin|[Hin|[]]].
     + apply in_map_iff in Hin. destruct Hin as (y & Hy & _). discriminate.
     + inversion Hin; subst. auto.
+  - apply in_map_iff in Hin. destruct Hin as (y & Hy & _). discriminate.
   - apply in_map_iff in Hin. destruct Hin as (y & Hy & _). discriminate.
 Qed.
 
@@ -102,25 +104,35 @@ Proof.
   destruct (negb (spec_armed s)); [inversion H; subst; destruct Hin|].
   destruct (completed (set_spec s false (spec_left s))); [inversion H; subst; destruct Hin|].
   destruct (attempts (set_spec s false (spec_left s))); [inversion H; subst; destruct Hin|].
+  destruct (elapsed (set_spec s false (spec_left s))); [inversion H; subst; destruct Hin|].
   destruct (send_request (set_spec s false (spec_left s)) false) as [s1 ev1] eqn:W. inversion H; subst.
   unfold send_request in W. eapply walk_sent_planmsg; eauto.
 Qed.
 
 (* every message of a step is a plan send, or the message of the executor task that was run *)
 Theorem step_sent c s o s' ev h m cz : step c s o = (s', ev) -> In (Sent h m cz) ev ->
-  plan_msg m cz \/ exists k t, o = Run k /\ nth_error (queue s) k = Some t /\ task_sends s t h m cz
-                            /\ pool_of s (task_host t) = PHealthy.
+  plan_msg m cz \/ (exists k t, o = Run k /\ nth_error (queue s) k = Some t /\ task_sends s t h m cz
+                            /\ pool_of s (task_host t) = PHealthy)
+  \/ (* executor-first schedule: the retry task ran inside the step that took the decision *)
+     (exists i k tag dcl reuse a, o = Resp i (RRetryable k tag) /\ inline_retry c = true /\ nth_error (attempts s) i = Some a /\
+        task_sends (bump_counters (tick_consult (set_attempts s (mark_done i (attempts s)))) dcl) (TRetry reuse (a_host a)) h m cz
+        /\ pool_of s (a_host a) = PHealthy).
 Proof.
   intros H Hin. destruct o as [|i r|k| |h0 p|k|pp]; cbn [step] in H.
   - left. unfold send_request in H. eapply walk_sent_planmsg; eauto.
-  - destruct (nth_error (attempts s) i) as [a|]; [|inversion H; subst; destruct Hin].
+  - destruct (nth_error (attempts s) i) as [a|] eqn:N; [|inversion H; subst; destruct Hin].
     destruct (a_done a); [inversion H; subst; destruct Hin|].
-    destruct (a_prep a); [inversion H; subst; destruct Hin|].
+    destruct (a_prep a).
+    { inversion H; subst. destruct Hin. }
     destruct (Nat.eqb (a_page a) (page_no s)); [|inversion H; subst; destruct Hin].
-    exfalso. eapply set_result_no_sent; eauto.
+    destruct (resp_current_cases _ _ _ _ _ _ H) as [H'|(k & tag & dcl & reuse & s2 & ev2 & -> & I & Pl & F & Sh & R & -> & ->)].
+    + exfalso. eapply set_result_no_sent; eauto.
+    + destruct Hin as [Hin|Hin]; [discriminate|]. apply in_app_iff in Hin. destruct Hin as [Hin|[Hin|[]]]; [|discriminate].
+      destruct (run_task_sent _ _ _ _ _ _ _ _ R Hin) as [E|[T P]]; [left; exact E|].
+      right; right. exists i, k, tag, dcl, reuse, a. repeat split; auto.
   - destruct (nth_error (queue s) k) as [t|] eqn:N; [|inversion H; subst; destruct Hin].
     destruct (run_task_sent _ _ _ _ _ _ _ _ H Hin) as [E|[T P]]; auto.
-    right. exists k, t. repeat split; auto.
+    right; left. exists k, t. repeat split; auto.
   - left. eapply spec_fire_sent; eauto.
   - inversion H; subst. destruct Hin.
   - inversion H; subst. destruct Hin.
@@ -223,14 +235,19 @@ Proof.
     + inversion H; subst; qnorm. apply queue_submit in Hin. cbn [queue set_attempts] in Hin.
       destruct Hin as [Hin| ->]; auto. right. exists i, r, a. rewrite Pp. auto.
     + destruct (Nat.eqb (a_page a) (page_no s)); [|inversion H; subst; left; exact Hin].
-      destruct (set_result_queue _ _ _ _ _ _ _ H Hin) as [G|G]; [left; exact G|].
-      right. exists i, r, a. rewrite Pp. auto.
+      destruct (resp_current_cases _ _ _ _ _ _ H) as [H'|(k & tag & dcl & reuse & s2 & ev2 & -> & I & Pl & F & Sh & R & -> & ->)].
+      * destruct (set_result_queue _ _ _ _ _ _ _ H' Hin) as [G|G]; [left; exact G|].
+        right. exists i, r, a. rewrite Pp. auto.
+      * left. cbn [queue set_err] in Hin. apply run_task_queue in R. rewrite R in Hin. exact Hin.
   - destruct (nth_error (queue s) k) as [t0|]; [|inversion H; subst; qnorm; left; exact Hin].
     apply run_task_queue in H. rewrite H in Hin. cbn [queue set_queue] in Hin. left. eapply in_remove_nth; eauto.
   - left. unfold spec_fire in H.
     destruct (negb (spec_armed s)); [inversion H; subst; qnorm; exact Hin|].
     destruct (completed (set_spec s false (spec_left s))); [inversion H; subst; qnorm; exact Hin|].
     destruct (attempts (set_spec s false (spec_left s))); [inversion H; subst; qnorm; exact Hin|].
+    destruct (elapsed (set_spec s false (spec_left s))).
+    { inversion H; subst. destruct (on_timeout_same (set_spec s false (spec_left s))) as [[_ F]|[_ E]];
+        [rewrite (sbo_queue _ _ F) in Hin|rewrite E in Hin]; exact Hin. }
     destruct (send_request (set_spec s false (spec_left s)) false) as [s1 ev1] eqn:W. inversion H; subst.
     apply send_request_queue in W. unfold start_timer in Hin.
     destruct (spec_armed s1); [|destruct (0 <? spec_left s1)]; cbn in Hin; rewrite W in Hin; exact Hin.
